@@ -36,6 +36,7 @@ type Solver struct {
 	timeout int       // ms per check
 	dead    bool
 	LastErr string
+	Answers []Result // every check-sat answer in order (only recorded while LogTo is set)
 }
 
 type Stats struct {
@@ -210,6 +211,9 @@ func (s *Solver) Check(extra *Term, vars map[string]*Term, wantModel bool) (Resu
 	}
 	s.send("(pop 1)")
 	d := time.Since(t0)
+	if s.LogTo != nil {
+		s.Answers = append(s.Answers, res)
+	}
 	s.Stats.Queries++
 	s.Stats.Time += d
 	if d > s.Stats.MaxQuery {
@@ -372,3 +376,43 @@ func (s *Solver) Close() {
 }
 
 func (s *Solver) Dead() bool { return s.dead }
+
+// ReplayTranscript feeds a recorded session to another solver and returns its check-sat answers in order.
+func ReplayTranscript(kind string, transcript []byte, timeout time.Duration) ([]Result, error) {
+	var cmd *exec.Cmd
+	switch kind {
+	case "z3", "z3-new":
+		cmd = exec.Command(kind, "-in", "-smt2")
+	case "cvc5":
+		cmd = exec.Command("cvc5", "--incremental", "--lang=smt2", "--produce-models", "--tlimit-per=60000")
+	default:
+		return nil, fmt.Errorf("unknown solver %q", kind)
+	}
+	cmd.Stdin = strings.NewReader(string(transcript) + "\n(exit)\n")
+	done := make(chan struct{})
+	var out []byte
+	var err error
+	go func() { out, err = cmd.CombinedOutput(); close(done) }()
+	select {
+	case <-done:
+	case <-time.After(timeout):
+		if cmd.Process != nil {
+			cmd.Process.Kill()
+		}
+		<-done
+		return nil, fmt.Errorf("%s timed out", kind)
+	}
+	_ = err
+	var res []Result
+	for _, l := range strings.Split(string(out), "\n") {
+		switch strings.TrimSpace(l) {
+		case "sat":
+			res = append(res, Sat)
+		case "unsat":
+			res = append(res, Unsat)
+		case "unknown", "timeout":
+			res = append(res, Unknown)
+		}
+	}
+	return res, nil
+}
